@@ -2,7 +2,7 @@
 # Re-audits every recorded seed (seeded/*/patch.diff) against the quick check of the property it
 # was written for, four at a time in scratch worktrees. Writes seeded/AUDIT.txt.
 cd /verif
-ls seeded | grep -v AUDIT > /tmp/seedlist.txt
+ls seeded | grep -v AUDIT | grep -v "^_" > /tmp/seedlist.txt
 run_slot() {
   SLOT=$1
   awk -v s=$SLOT 'NR % 4 == s' /tmp/seedlist.txt | while read D; do
